@@ -377,6 +377,22 @@ func splitTop(s string, sep rune) []string {
 var funcHdrRe = regexp.MustCompile(`^(?:\(\s*(\w+)\s+(\*?)\s*(\w+)\s*\)\s*)?([\w.$]+)\s*(?:\((.*)\))?.*$`)
 
 func parseFuncHeader(fc *FuncContract, rest string, line int) {
+	if fc.Kind == "extern" {
+		// extern keys are the callee's full name, e.g. os.Rename(a, b) or (*os.File).Sync(f)
+		rest = strings.TrimSpace(rest)
+		if i := strings.LastIndex(rest, "("); i > 0 && strings.HasSuffix(rest, ")") {
+			fc.Key = strings.TrimSpace(rest[:i])
+			for _, p := range splitTop(rest[i+1:len(rest)-1], ',') {
+				f := strings.Fields(strings.TrimSpace(p))
+				if len(f) > 0 {
+					fc.ParamNames = append(fc.ParamNames, f[0])
+				}
+			}
+			return
+		}
+		fc.Key = rest
+		return
+	}
 	m := funcHdrRe.FindStringSubmatch(rest)
 	if m == nil {
 		panic(parseErr(fmt.Sprintf("line %d: bad function header %q", line, rest)))
